@@ -113,8 +113,27 @@ class NodesDriver:
                     mm.append(self._mm("C04", "query:unit", "%s -> %s returned another unit" % (a, b)))
                 if not close(val, ratio, 1e-12):
                     mm.append(self._mm("C04", "query:value", "%s -> %s gave %r, declarations give %s" % (a, b, val, float(ratio))))
+                    if prior and "D" in prior:
+                        # the same pair was asked before and an equivalence was declared since: the answer is not a
+                        # function of the equivalences in force
+                        mm.append(self._mm("C08", "query:value-not-from-the-equivalences-in-force %s" % self._shape(prior),
+                                           "%s -> %s gave %r, the equivalences in force give %s" % (a, b, val, float(ratio))))
             if prior and "D" in prior and ev["out"] == "ok":
                 stats["nontrivial"] = stats.get("nontrivial", 0) + 1
+            if out == "ok" and "C05" in self.props:
+                # relations among the code's OWN results in this history: there and back, and via every other unit
+                o2, back, _ = self._convert(val * b, a)
+                if o2 == "ok" and not close(back, 1, 1e-12):
+                    mm.append(self._mm("C05", "node:roundtrip %s" % self._shape(prior), "1 %s -> %s -> %s gave %r" % (a, b, a, back)))
+                for tok, c in sorted(list(self.unit.items()) + list(ctx.get("late", {}).items())):
+                    if c is a or c is b:
+                        continue
+                    o3, mid, _ = self._convert(1 * a, c)
+                    if o3 != "ok":
+                        continue
+                    o4, end, _ = self._convert(mid * c, b)
+                    if o4 == "ok" and not close(end, val, 1e-12):
+                        mm.append(self._mm("C05", "node:via %s" % self._shape(prior), "1 %s -> %s is %r directly and %r via %s" % (a, b, val, end, c)))
             ctx["asked"].setdefault((op, key), []).append("Q")
         elif op == "compare":
             # 1 a  versus  ratio b : equal iff convertible
@@ -140,6 +159,10 @@ class NodesDriver:
                 if outs != want:
                     mm.append(self._mm("C08", "compare:outcome exp=%s %s" % (ev["out"], self._shape(prior)),
                                        "%s vs %s: ==,==r,!=,<,<= gave %s, declarations (%s) require %s" % (a, b, outs, ev["out"], want)))
+                    if ev["out"] == "ok":
+                        # physically equal quantities of convertible units: ==, != and the order must say so
+                        mm.append(self._mm("C12", "node:equal-values-compare-unequal %s" % self._shape(prior),
+                                           "1 %s vs %s %s (equal by the equivalences in force): ==,==r,!=,<,<= gave %s" % (a, as_number(ratio), b, outs)))
             ctx["asked"].setdefault((op, key), []).append("Q")
         return [x for x in mm if x["prop"] in self.props]
 
@@ -161,10 +184,30 @@ class NodesDriver:
         return {"prop": prop, "key": key, "detail": detail}
 
 
-def tlc_nodes(label, nodes, maxdecl, maxq, cfg="MC_ConvNodes.cfg", timeout=3000, latedefs=0):
+def tlc_nodes(label, nodes, maxdecl, maxq, cfg="MC_ConvNodes.cfg", timeout=3000, latedefs=0, redecl=0):
     return run_tlc("MC_ConvNodes", cfg=cfg, wd=workdir("tlc_conv_" + label),
-                   env={"VERIF_NODES": nodes, "VERIF_MAXDECL": maxdecl, "VERIF_MAXQ": maxq, "VERIF_LATEDEFS": latedefs},
+                   env={"VERIF_NODES": nodes, "VERIF_MAXDECL": maxdecl, "VERIF_MAXQ": maxq, "VERIF_LATEDEFS": latedefs, "VERIF_REDECL": redecl},
                    workers=4 if nodes == 3 else None, timeout=timeout)
+
+
+def node_histories_for(v, prop, tier, seed):
+    """the interleavings of declarations (incl. a corrected re-declaration of one pair), conversions and comparisons over
+    single units, replayed for the clauses of `prop` (C05: there-and-back / via relations among the code's own results
+    within each history; C12: physically equal quantities compare equal whatever was asked before)"""
+    red = tlc_nodes("nodes_redecl_" + prop, 3, 3, 2, redecl=1)
+    require_ok(red, "MC_ConvNodes[re-declarations]")
+    v.add_tlc(red, "MC_ConvNodes nodes=3 maxdecl=3 maxq=2 with a corrected re-declaration of one pair")
+    rh = red.exports.get("H", [])
+    plain = tlc_nodes("nodes_plain_" + prop, 3, 3, 2)
+    require_ok(plain, "MC_ConvNodes")
+    v.add_tlc(plain, "MC_ConvNodes nodes=3 maxdecl=3 maxq=2")
+    hs = rh + plain.exports.get("H", [])
+    rep = replay_histories(hs, NodesDriver(nodes=3, props=(prop,)), split_depth=2, label="nodes_" + prop)
+    v.impl += rep["n"]
+    v.evaluations += rep["n"]
+    v.nontrivial += rep["stats"].get("nontrivial", 0)
+    v.add_violations(rep["mm"])
+    v.extra["node_histories"] = {"histories": len(hs), "executed": rep["n"]}
 
 
 def run_c08(tier, seed):
@@ -189,6 +232,17 @@ def run_c08(tier, seed):
     v.add_violations(rep["mm"])
     v.exhaustive = True
     v.extra["replay"] = {"histories": len(hists), "executed": rep["n"], "ops": {k[3:]: n for k, n in rep["stats"].items() if k.startswith("op:")}}
+    # corrected definitions: the pair (n3, n2) is declared twice with different ratios, the later one is in force
+    red = tlc_nodes("nodes_redecl", 3, 3 if tier == "quick" else 4, 2 if tier == "quick" else 3, redecl=1)
+    require_ok(red, "MC_ConvNodes[re-declarations]")
+    v.add_tlc(red, "MC_ConvNodes nodes=3 with a second, different declaration for one pair (the later one replaces the earlier)")
+    rh = red.exports.get("H", [])
+    repr_ = replay_histories(rh, NodesDriver(nodes=3, props=("C08",)), split_depth=2, label="nodes_redecl")
+    v.impl += repr_["n"]
+    v.evaluations += repr_["n"]
+    v.nontrivial += repr_["stats"].get("nontrivial", 0)
+    v.add_violations(repr_["mm"])
+    v.extra["replay_redeclarations"] = {"histories": len(rh), "executed": repr_["n"]}
     # the same interleavings with one unit DEFINED during the history (definitions, declarations and queries interleaved)
     late = tlc_nodes("nodes_late", 3, 3, 2, latedefs=1)
     require_ok(late, "MC_ConvNodes[late definitions]")
@@ -545,6 +599,8 @@ def run_shapes(prop, tier, seed):
               "or did not succeed (C07)")
     rng.shuffle(cases)
     v.samples = [{"u": _b(c["u"]), "v": _b(c["v"]), "ratio_pv": c["pv"]} for c in cases[:5]]
+    if prop == "C05":
+        node_histories_for(v, "C05", tier, seed)
     import ledger
     ledger.run(v, prop, tier, seed)         # code -> spec: recorded programs over the shipped units
     return v.finish()
